@@ -181,6 +181,30 @@ func scenarios() []scenario {
 			var tick uint32
 			e.Go("tick", func() { w.SM.VerifTick(&tick) })
 		}},
+		{Name: "rtsp-pub+stat", Conf: world.Conf{"rtsp.enable": true}, Build: func(w *world.W, e *sched.Exec) {
+			// the data path of an RTSP publisher (session lock, then group lock) against the stat API
+			// (server lock, group lock, then the session's statistics)
+			rtp := func(seq uint16, ts uint32) []byte {
+				return ref.BuildRtp(ref.Rtp{Marker: true, PT: 96, Seq: seq, Ts: ts, Ssrc: 7, Payload: []byte{0x65, 1, 2, 3, byte(seq)}})
+			}
+			rtpA := func(seq uint16, ts uint32) []byte {
+				return ref.BuildRtp(ref.Rtp{Marker: true, PT: 97, Seq: seq, Ts: ts, Ssrc: 8, Payload: ref.PackAacHbr([]byte{1, 2, byte(seq)})})
+			}
+			pub := rtspScript(
+				ref.RtspRequest("ANNOUNCE", rtspUri, 1, map[string]string{"Content-Type": "application/sdp"}, sdpAV()),
+				ref.RtspRequest("SETUP", rtspUri+"/streamid=0", 2, map[string]string{"Transport": "RTP/AVP/TCP;unicast;interleaved=0-1;mode=record"}, nil),
+				ref.RtspRequest("SETUP", rtspUri+"/streamid=1", 3, map[string]string{"Transport": "RTP/AVP/TCP;unicast;interleaved=2-3;mode=record"}, nil),
+				ref.RtspRequest("RECORD", rtspUri, 4, nil, nil),
+				ref.Interleaved(0, rtp(1, 0)), ref.Interleaved(2, rtpA(1, 0)), ref.Interleaved(0, rtp(2, 3600)), ref.Interleaved(2, rtpA(2, 1024)), ref.Interleaved(0, rtp(3, 7200)))
+			srv := logic.VerifRtspServer(w.SM)
+			cp := sched.NewConn("rtsppub", pub)
+			e.Go("rtsp-publisher", func() { rtsp.VerifHandleConn(srv, cp) })
+			e.Go("api-stat", func() {
+				w.SM.StatGroup("s")
+				w.SM.StatAllGroup()
+				w.SM.StatGroup("s")
+			})
+		}},
 		{Name: "rtsp-pub-udp-two-tracks", Conf: world.Conf{"rtsp.enable": true}, Build: func(w *world.W, e *sched.Exec) {
 			// an RTSP publisher whose RTP arrives over UDP: lal reads each track's socket in a goroutine
 			// of its own, so the audio and the video datagrams are handled concurrently
